@@ -644,6 +644,95 @@ class Poll(object):
         return self._scan(k)
 
 
+POLLIN, POLLPRI, POLLOUT, POLLERR, POLLHUP, POLLNVAL, POLLRDHUP = 1, 2, 4, 8, 16, 32, 0x2000
+_LETTER_BITS = {"r": POLLIN, "w": POLLOUT, "e": POLLERR, "h": POLLHUP, "n": POLLNVAL}
+
+
+class RawPoll(object):
+    """select.poll() of the in-memory kernel: event masks are bit sets, time-outs milliseconds; POLLERR / POLLHUP / POLLNVAL
+    are reported whether asked for or not (as the OS does).  rpyc's own wrapper (rpyc.lib.compat.PollingPoll) runs on top."""
+
+    def __init__(self):
+        self._reg = {}
+
+    def register(self, fd, eventmask=POLLIN | POLLPRI | POLLOUT):
+        if not isinstance(fd, int):
+            fd = fd.fileno()
+        if fd < 0:
+            raise ValueError("file descriptor cannot be a negative integer (%d)" % fd)
+        self._reg[fd] = eventmask
+
+    def modify(self, fd, eventmask):
+        if fd not in self._reg:
+            raise OSError(E.ENOENT, "No such file or directory")
+        self._reg[fd] = eventmask
+
+    def unregister(self, fd):
+        if not isinstance(fd, int):
+            fd = fd.fileno()
+        del self._reg[fd]
+
+    def _scan(self, k):
+        out = []
+        for fd in sorted(self._reg):
+            want = self._reg[fd] | POLLERR | POLLHUP | POLLNVAL
+            bits = 0
+            for ch in k.mask(fd):
+                bits |= _LETTER_BITS[ch]
+            bits &= want
+            if bits:
+                out.append((fd, bits))
+        return out
+
+    def poll(self, timeout=None):
+        k = _k()
+        if k is None:
+            return []
+        s = k.sim
+        s.point("poll")
+        for fd in self._reg:
+            so = k.fds.get(fd)
+            if so is not None:
+                act = k.fault_for(so._d, "poll")
+                if act is not None:
+                    k.apply_fatal(so._d, act, "poll")
+        if k.cfg.eintr_permille and k.st.flip(k.cfg.eintr_permille):
+            s.count("fault:poll-eintr")
+            raise OSError(E.EINTR, "Interrupted system call")
+        r = self._scan(k)
+        if r or timeout == 0:
+            return r
+        if timeout is not None and timeout < 0:
+            timeout = None
+        s.block(lambda: bool(self._scan(k)), None if timeout is None else timeout / 1000.0, "poll")
+        return self._scan(k)
+
+
+def make_select_module():
+    import types
+    m = types.ModuleType("select")
+    m.POLLIN, m.POLLPRI, m.POLLOUT, m.POLLERR, m.POLLHUP, m.POLLNVAL, m.POLLRDHUP = (POLLIN, POLLPRI, POLLOUT, POLLERR, POLLHUP,
+                                                                                       POLLNVAL, POLLRDHUP)
+    m.error = OSError
+    m.poll = RawPoll
+
+    def select(rl, wl, xl, timeout=None):
+        p = RawPoll()
+        fds = {}
+        for lst, bit in ((rl, POLLIN), (wl, POLLOUT)):
+            for x in lst:
+                fd = x if isinstance(x, int) else x.fileno()
+                fds[fd] = fds.get(fd, 0) | bit
+        for fd, bits in fds.items():
+            p.register(fd, bits)
+        ev = dict(p.poll(None if timeout is None else timeout * 1000.0))
+        key = lambda x: x if isinstance(x, int) else x.fileno()        # noqa: E731
+        return ([x for x in rl if ev.get(key(x), 0) & (POLLIN | POLLHUP | POLLERR | POLLNVAL)],
+                [x for x in wl if ev.get(key(x), 0) & (POLLOUT | POLLERR)], [])
+    m.select = select
+    return m
+
+
 class _FdTable(object):
     """descriptor table that does not keep the Python socket objects alive (the real kernel does not either)"""
 
